@@ -22,22 +22,25 @@ Inductive epiece :=
 | EQuoted (q : char) (body : str)
 | ENested (ps : list epiece).
 
-Fixpoint render_epiece (e : epiece) : str :=
+(* written between the brackets [o] ... [c]; nested pieces use the same pair *)
+Fixpoint render_epiece (o c : char) (e : epiece) : str :=
   match e with
-  | EChar c => [c]
+  | EChar x => [x]
   | EQuoted q body => q :: body ++ [q]
-  | ENested ps => c_lbrace :: flat_map render_epiece ps ++ [c_rbrace]
+  | ENested ps => o :: flat_map (render_epiece o c) ps ++ [c]
   end.
-Definition render_expr (ps : list epiece) : str := flat_map render_epiece ps.
+Definition render_pieces (o c : char) (ps : list epiece) : str := flat_map (render_epiece o c) ps.
+Definition render_expr (ps : list epiece) : str := render_pieces c_lbrace c_rbrace ps.
 
-(* a plain character of an expression: no quote, brace or backslash (`>`, `<`, `/`, white space, ... allowed) *)
-Definition echar_ok (c : char) : bool :=
-  negb (is_quote c) && negb (c =? c_lbrace)%N && negb (c =? c_rbrace)%N && negb (c =? html_escape_char)%N.
-Fixpoint epiece_ok (e : epiece) : bool :=
+(* a plain character between brackets: no quote, none of the two brackets, no backslash
+   (`>`, `<`, `/`, white space, other brackets ... allowed) *)
+Definition echar_ok (o c x : char) : bool :=
+  negb (is_quote x) && negb (x =? o)%N && negb (x =? c)%N && negb (x =? html_escape_char)%N.
+Fixpoint epiece_ok (o c : char) (e : epiece) : bool :=
   match e with
-  | EChar c => echar_ok c
+  | EChar x => echar_ok o c x
   | EQuoted q body => quoted_ok q body
-  | ENested ps => forallb epiece_ok ps
+  | ENested ps => forallb (epiece_ok o c) ps
   end.
 
 Inductive aval :=
@@ -64,19 +67,41 @@ Definition aval_ok (v : aval) : bool :=
   | VNone => true
   | VQuoted q body => quoted_ok q body
   | VUnquoted body => unquoted_ok body
-  | VExpr ps => forallb epiece_ok ps
+  | VExpr ps => forallb (epiece_ok c_lbrace c_rbrace) ps
+  end.
+
+(* ---- attribute names: XML names, Angular directives, Angular / React bracketed names *)
+Inductive aname :=
+| NIdent (n : str)                          (* class, data-x, v-on:click, xml:lang *)
+| NDirective (d : char) (n : str)           (* *ngIf, #ref *)
+| NBracket (o : char) (ps : list epiece).   (* [prop], (click), [(ngModel)], {...spread} *)
+
+Definition closer (o : char) : char :=
+  if (o =? c_lparen)%N then c_rparen else if (o =? c_lbrack)%N then c_rbrack else c_rbrace.
+Definition render_aname (a : aname) : str :=
+  match a with
+  | NIdent n => n
+  | NDirective d n => d :: n
+  | NBracket o ps => o :: render_pieces o (closer o) ps ++ [closer o]
+  end.
+Definition aname_ok (a : aname) : bool :=
+  match a with
+  | NIdent n => name_ok n
+  | NDirective d n => ((d =? c_star)%N || (d =? c_hash)%N) && match n with [] => true | _ :: _ => name_ok n end
+  | NBracket o ps =>
+      ((o =? c_lparen)%N || (o =? c_lbrack)%N || (o =? c_lbrace)%N) && forallb (epiece_ok o (closer o)) ps
   end.
 
 (* ---- attributes: white space, name, optional `=value` *)
-Record dattr := mkDAttr { da_ws : str; da_name : str; da_val : aval }.
+Record dattr := mkDAttr { da_ws : str; da_name : aname; da_val : aval }.
 
 Definition value_part (v : aval) : str := match value_text v with Some t => c_eq :: t | None => [] end.
-Definition render_attr (a : dattr) : str := da_ws a ++ da_name a ++ value_part (da_val a).
+Definition render_attr (a : dattr) : str := da_ws a ++ render_aname (da_name a) ++ value_part (da_val a).
 Definition render_attrs (l : list dattr) : str := flat_map render_attr l.
 
 Definition ws_ok (w : str) : bool := forallb is_space w.
 Definition dattr_ok (a : dattr) : bool :=
-  match da_ws a with [] => false | _ :: _ => true end && ws_ok (da_ws a) && name_ok (da_name a) && aval_ok (da_val a).
+  match da_ws a with [] => false | _ :: _ => true end && ws_ok (da_ws a) && aname_ok (da_name a) && aval_ok (da_val a).
 
 (* the attribute tokens of a rendered attribute list whose first character has offset [p]:
    exact name and value ranges, value text as written *)
@@ -85,8 +110,8 @@ Fixpoint attr_tokens (p : N) (l : list dattr) : list attr :=
   | [] => []
   | a :: rest =>
       let ns := (p + N.of_nat (length (da_ws a)))%N in
-      let ne := (ns + N.of_nat (length (da_name a)))%N in
-      mkAttr (da_name a) ns ne
+      let ne := (ns + N.of_nat (length (render_aname (da_name a))))%N in
+      mkAttr (render_aname (da_name a)) ns ne
              (match value_text (da_val a) with
               | Some t => Some (t, (ne + 1)%N, (ne + 1 + N.of_nat (length t))%N)
               | None => None
@@ -116,61 +141,73 @@ Section ExprInd.
       match l with [] => HQ0 | x :: r => HQ1 x r (epiece_ind2 x) (go r) end.
 End ExprInd.
 
-Definition pb_piece_stmt (e : epiece) : Prop :=
-  forall d T off, epiece_ok e = true ->
-    pair_body c_lbrace c_rbrace 0 d (render_epiece e ++ T) off =
-    pair_body c_lbrace c_rbrace 0 d T (off + length (render_epiece e)).
-Definition pb_pieces_stmt (ps : list epiece) : Prop :=
-  forall d T off, forallb epiece_ok ps = true ->
-    pair_body c_lbrace c_rbrace 0 d (render_expr ps ++ T) off =
-    pair_body c_lbrace c_rbrace 0 d T (off + length (render_expr ps)).
+Section Pieces.
+  Variables o c : char.
+  Hypothesis Hco : (c =? o)%N = false.
+  Hypothesis Hqo : is_quote o = false.
+  Hypothesis Hqc : is_quote c = false.
 
-Lemma pair_body_expr : (forall e, pb_piece_stmt e) /\ (forall ps, pb_pieces_stmt ps).
-Proof.
-  assert (HC : forall c, pb_piece_stmt (EChar c)).
-  { intros c d T off H. cbn [epiece_ok] in H. unfold echar_ok in H.
-    repeat (apply andb_true_iff in H; destruct H as [H ?]).
-    repeat match goal with X : negb _ = true |- _ => apply negb_true_iff in X end.
-    cbn [render_epiece app length pair_body].
-    rewrite eat_quoted_not_quote by assumption.
-    repeat match goal with X : (_ =? _)%N = false |- _ => rewrite X end.
-    f_equal. lia. }
-  assert (HQu : forall q b, pb_piece_stmt (EQuoted q b)).
-  { intros q b d T off H. cbn [epiece_ok] in H.
-    cbn [render_epiece]. rewrite <- app_comm_cons, <- app_assoc. cbn [app].
-    cbn [pair_body]. rewrite (eat_quoted_plain q b T H).
-    rewrite pair_body_skip by (rewrite app_length; cbn [length]; lia).
-    replace (Init.Nat.pred (length b + 2)) with (length (b ++ [q])) by (rewrite app_length; cbn [length]; lia).
-    change (b ++ q :: T) with (b ++ [q] ++ T). rewrite app_assoc.
-    rewrite skipn_app_exact by reflexivity. f_equal. cbn [length]. lia. }
-  assert (HN : forall ps, pb_pieces_stmt ps -> pb_piece_stmt (ENested ps)).
-  { intros ps IH d T off H. cbn [epiece_ok] in H.
-    cbn [render_epiece]. fold (render_expr ps). rewrite <- app_comm_cons, <- app_assoc. cbn [app].
-    cbn [pair_body]. rewrite eat_quoted_not_quote by reflexivity. rewrite N.eqb_refl.
-    rewrite (IH (S d) (c_rbrace :: T) (S off) H).
-    cbn [pair_body]. rewrite eat_quoted_not_quote by reflexivity.
-    change ((c_rbrace =? c_lbrace)%N) with false. rewrite N.eqb_refl.
-    f_equal. cbn [length]. rewrite app_length. cbn [length]. lia. }
-  assert (HQ0 : pb_pieces_stmt []).
-  { intros d T off _. cbn [render_expr flat_map app length]. f_equal. lia. }
-  assert (HQ1 : forall e l, pb_piece_stmt e -> pb_pieces_stmt l -> pb_pieces_stmt (e :: l)).
-  { intros e l He Hl d T off H. cbn [forallb] in H. apply andb_true_iff in H. destruct H as [H1 H2].
-    unfold render_expr. cbn [flat_map]. fold (render_expr l). rewrite <- app_assoc.
-    rewrite (He d _ off H1). rewrite (Hl d T _ H2). f_equal. rewrite app_length. lia. }
-  split.
-  - exact (epiece_ind2 _ _ HC HQu HN HQ0 HQ1).
-  - exact (epieces_ind2 _ _ HC HQu HN HQ0 HQ1).
-Qed.
+  Definition pb_piece_stmt (e : epiece) : Prop :=
+    forall d T off, epiece_ok o c e = true ->
+      pair_body o c 0 d (render_epiece o c e ++ T) off =
+      pair_body o c 0 d T (off + length (render_epiece o c e)).
+  Definition pb_pieces_stmt (ps : list epiece) : Prop :=
+    forall d T off, forallb (epiece_ok o c) ps = true ->
+      pair_body o c 0 d (render_pieces o c ps ++ T) off =
+      pair_body o c 0 d T (off + length (render_pieces o c ps)).
+
+  Lemma pair_body_pieces : (forall e, pb_piece_stmt e) /\ (forall ps, pb_pieces_stmt ps).
+  Proof.
+    assert (HC : forall x, pb_piece_stmt (EChar x)).
+    { intros x d T off H. cbn [epiece_ok] in H. unfold echar_ok in H.
+      repeat (apply andb_true_iff in H; destruct H as [H ?]).
+      repeat match goal with X : negb _ = true |- _ => apply negb_true_iff in X end.
+      cbn [render_epiece app length pair_body].
+      rewrite eat_quoted_not_quote by assumption.
+      repeat match goal with X : (_ =? _)%N = false |- _ => rewrite X end.
+      f_equal. lia. }
+    assert (HQu : forall q b, pb_piece_stmt (EQuoted q b)).
+    { intros q b d T off H. cbn [epiece_ok] in H.
+      cbn [render_epiece]. rewrite <- app_comm_cons, <- app_assoc. cbn [app].
+      cbn [pair_body]. rewrite (eat_quoted_plain q b T H).
+      rewrite pair_body_skip by (rewrite app_length; cbn [length]; lia).
+      replace (Init.Nat.pred (length b + 2)) with (length (b ++ [q])) by (rewrite app_length; cbn [length]; lia).
+      change (b ++ q :: T) with (b ++ [q] ++ T). rewrite app_assoc.
+      rewrite skipn_app_exact by reflexivity. f_equal. cbn [length]. lia. }
+    assert (HN : forall ps, pb_pieces_stmt ps -> pb_piece_stmt (ENested ps)).
+    { intros ps IH d T off H. cbn [epiece_ok] in H.
+      cbn [render_epiece]. fold (render_pieces o c ps). rewrite <- app_comm_cons, <- app_assoc. cbn [app].
+      cbn [pair_body]. rewrite eat_quoted_not_quote by exact Hqo. rewrite N.eqb_refl.
+      rewrite (IH (S d) (c :: T) (S off) H).
+      cbn [pair_body]. rewrite eat_quoted_not_quote by exact Hqc.
+      rewrite Hco. rewrite N.eqb_refl.
+      f_equal. cbn [length]. rewrite app_length. cbn [length]. lia. }
+    assert (HQ0 : pb_pieces_stmt []).
+    { intros d T off _. cbn [render_pieces flat_map app length]. f_equal. lia. }
+    assert (HQ1 : forall e l, pb_piece_stmt e -> pb_pieces_stmt l -> pb_pieces_stmt (e :: l)).
+    { intros e l He Hl d T off H. cbn [forallb] in H. apply andb_true_iff in H. destruct H as [H1 H2].
+      unfold render_pieces. cbn [flat_map]. fold (render_pieces o c l). rewrite <- app_assoc.
+      rewrite (He d _ off H1). rewrite (Hl d T _ H2). f_equal. rewrite app_length. lia. }
+    split.
+    - exact (epiece_ind2 _ _ HC HQu HN HQ0 HQ1).
+    - exact (epieces_ind2 _ _ HC HQu HN HQ0 HQ1).
+  Qed.
+
+  Lemma eat_pair_pieces ps T :
+    forallb (epiece_ok o c) ps = true ->
+    eat_pair o c (o :: render_pieces o c ps ++ c :: T) = Some (length (render_pieces o c ps) + 2).
+  Proof.
+    intros H. cbn [eat_pair]. rewrite N.eqb_refl.
+    destruct pair_body_pieces as [_ G]. rewrite (G ps 0 (c :: T) 1 H).
+    cbn [pair_body]. rewrite eat_quoted_not_quote by exact Hqc.
+    rewrite Hco. rewrite N.eqb_refl. f_equal. lia.
+  Qed.
+End Pieces.
 
 Lemma eat_pair_expr ps T :
-  forallb epiece_ok ps = true ->
+  forallb (epiece_ok c_lbrace c_rbrace) ps = true ->
   eat_pair c_lbrace c_rbrace (c_lbrace :: render_expr ps ++ c_rbrace :: T) = Some (length (render_expr ps) + 2).
-Proof.
-  intros H. cbn [eat_pair]. rewrite N.eqb_refl.
-  destruct pair_body_expr as [_ G]. rewrite (G ps 0 (c_rbrace :: T) 1 H).
-  cbn [pair_body]. rewrite eat_quoted_not_quote by reflexivity.
-  change ((c_rbrace =? c_lbrace)%N) with false. rewrite N.eqb_refl. f_equal. lia.
-Qed.
+Proof. apply eat_pair_pieces; reflexivity. Qed.
 
 (* ================================================================== one attribute *)
 (* what follows an attribute (or the attribute list): nothing, white space, `>` or `/` *)
@@ -224,6 +261,52 @@ Proof.
   rewrite consume_paired_not_opener by (apply name_start_not_opener; exact Hc). cbn [orelse]. exact Hid.
 Qed.
 
+(* the bracket pairs of attribute names *)
+Lemma bracket_cases o : ((o =? c_lparen)%N || (o =? c_lbrack)%N || (o =? c_lbrace)%N) = true ->
+  o = c_lparen \/ o = c_lbrack \/ o = c_lbrace.
+Proof. intros H. chars. Qed.
+
+Lemma name_char_false_start c : name_char c = false -> name_start_char c = false.
+Proof. intros H. destruct (name_start_char c) eqn:E; [|reflexivity]. rewrite (name_start_is_name c E) in H. discriminate. Qed.
+
+Lemma attribute_name_render a T :
+  aname_ok a = true -> stops name_char T ->
+  attribute_name (render_aname a ++ T) = Some (length (render_aname a)).
+Proof.
+  intros Ha HT. destruct a as [n|d n|o ps]; cbn [aname_ok render_aname] in *.
+  - apply attribute_name_ident; assumption.
+  - apply andb_true_iff in Ha. destruct Ha as [Hd Hn].
+    cbn [app]. unfold attribute_name. rewrite Hd. cbn [length]. f_equal. f_equal.
+    destruct n as [|x r].
+    + cbn [app length]. destruct T as [|y T]; [reflexivity|]. cbn [stops] in HT.
+      cbn [ident]. rewrite (name_char_false_start y HT). reflexivity.
+    + rewrite (ident_name (x :: r) T Hn HT). reflexivity.
+  - apply andb_true_iff in Ha. destruct Ha as [Ho Hps].
+    rewrite <- app_comm_cons, <- app_assoc. cbn [app length]. rewrite app_length. cbn [length].
+    apply bracket_cases in Ho. destruct Ho as [-> | [-> | ->]].
+    + change (closer c_lparen) with c_rparen in *. unfold attribute_name.
+      change ((c_lparen =? c_star)%N || (c_lparen =? c_hash)%N) with false. cbv iota.
+      unfold consume_paired. rewrite eat_pair_other by reflexivity. cbn [orelse].
+      rewrite (eat_pair_pieces c_lparen c_rparen eq_refl eq_refl eq_refl ps T Hps). cbn [orelse]. f_equal. lia.
+    + change (closer c_lbrack) with c_rbrack in *. unfold attribute_name.
+      change ((c_lbrack =? c_star)%N || (c_lbrack =? c_hash)%N) with false. cbv iota.
+      unfold consume_paired. rewrite !eat_pair_other by reflexivity. cbn [orelse].
+      rewrite (eat_pair_pieces c_lbrack c_rbrack eq_refl eq_refl eq_refl ps T Hps). cbn [orelse]. f_equal. lia.
+    + change (closer c_lbrace) with c_rbrace in *. unfold attribute_name.
+      change ((c_lbrace =? c_star)%N || (c_lbrace =? c_hash)%N) with false. cbv iota.
+      unfold consume_paired. rewrite !eat_pair_other by reflexivity. cbn [orelse].
+      rewrite (eat_pair_pieces c_lbrace c_rbrace eq_refl eq_refl eq_refl ps T Hps). cbn [orelse]. f_equal. lia.
+Qed.
+
+Lemma aname_stops_space a T : aname_ok a = true -> stops is_space (render_aname a ++ T).
+Proof.
+  intros Ha. destruct a as [n|d n|o ps]; cbn [aname_ok render_aname] in *.
+  - destruct n as [|c r]; [discriminate|]. cbn [name_ok] in Ha. apply andb_true_iff in Ha. destruct Ha as [Hc _].
+    cbn [app stops]. apply name_start_not_space. exact Hc.
+  - apply andb_true_iff in Ha. destruct Ha as [Hd _]. cbn [app stops]. chars.
+  - apply andb_true_iff in Ha. destruct Ha as [Ho _]. cbn [app stops]. chars.
+Qed.
+
 Definition araw_of (n : str) (v : aval) : araw :=
   match value_text v with
   | Some t => mkARaw (length n) (Some (length t)) (length n + 1 + length t)
@@ -236,16 +319,16 @@ Proof.
   destruct (value_text v); cbn [ar_used length]; lia.
 Qed.
 
-Lemma attribute_at_render n v T :
-  name_ok n = true -> aval_ok v = true -> attr_stop T ->
-  attribute_at (n ++ value_part v ++ T) = Some (araw_of n v).
+Lemma attribute_at_render a v T :
+  aname_ok a = true -> aval_ok v = true -> attr_stop T ->
+  attribute_at (render_aname a ++ value_part v ++ T) = Some (araw_of (render_aname a) v).
 Proof.
   intros Hn Hv HT. unfold attribute_at, araw_of, value_part.
   destruct (value_text v) as [t|] eqn:Et.
-  - rewrite attribute_name_ident; [|exact Hn|cbn [app stops]; exact eq_not_name].
+  - rewrite attribute_name_render; [|exact Hn|cbn [app stops]; exact eq_not_name].
     rewrite skipn_app_exact by reflexivity. cbn [app peek_is]. rewrite N.eqb_refl. cbn [tl].
     rewrite (attribute_value_text v t T Hv Et HT). reflexivity.
-  - cbn [app]. rewrite attribute_name_ident; [|exact Hn|apply attr_stop_name; exact HT].
+  - cbn [app]. rewrite attribute_name_render; [|exact Hn|apply attr_stop_name; exact HT].
     rewrite skipn_app_exact by reflexivity. rewrite attr_stop_peek_eq by exact HT. reflexivity.
 Qed.
 
@@ -255,7 +338,7 @@ Proof. intros H. apply terminator_cases in H. destruct H as [-> | ->]; reflexivi
 
 (* ================================================================== skip_attributes *)
 Lemma dattr_ok_parts a : dattr_ok a = true ->
-  da_ws a <> [] /\ forallb is_space (da_ws a) = true /\ name_ok (da_name a) = true /\ aval_ok (da_val a) = true.
+  da_ws a <> [] /\ forallb is_space (da_ws a) = true /\ aname_ok (da_name a) = true /\ aval_ok (da_val a) = true.
 Proof.
   unfold dattr_ok, ws_ok. intros H. repeat (apply andb_true_iff in H; destruct H as [H ?]).
   repeat split; try assumption. destruct (da_ws a); [discriminate|discriminate].
@@ -292,10 +375,10 @@ Lemma skip_attributes_attr a T off :
 Proof.
   intros Ha HT. destruct (dattr_ok_parts a Ha) as (Hne & Hws & Hn & Hv).
   unfold render_attr. rewrite <- !app_assoc.
-  rewrite (skip_attributes_round (da_ws a) _ (araw_of (da_name a) (da_val a)) off Hws).
+  rewrite (skip_attributes_round (da_ws a) _ (araw_of (render_aname (da_name a)) (da_val a)) off Hws).
   - rewrite araw_of_used. rewrite app_assoc. rewrite skipn_app_exact by reflexivity.
     f_equal. rewrite !app_length. lia.
-  - apply name_ok_stops_space. exact Hn.
+  - apply aname_stops_space. exact Hn.
   - apply attribute_at_render; assumption.
   - rewrite araw_of_used. rewrite app_assoc. rewrite (app_length (_ ++ _)). lia.
   - destruct (da_ws a); [contradiction|cbn [length]; lia].
@@ -390,11 +473,11 @@ Lemma attrs_go_attr a T pos :
 Proof.
   intros Ha HT. destruct (dattr_ok_parts a Ha) as (Hne & Hws & Hn & Hv).
   unfold render_attr. rewrite <- !app_assoc.
-  rewrite (attrs_go_round (da_ws a) _ (araw_of (da_name a) (da_val a)) pos Hws).
+  rewrite (attrs_go_round (da_ws a) _ (araw_of (render_aname (da_name a)) (da_val a)) pos Hws).
   - cbv zeta. cbn [attr_tokens app]. f_equal.
     + unfold araw_of, value_part. destruct (value_text (da_val a)) as [t|] eqn:Et; cbn [ar_name ar_value].
       * rewrite firstn_app_exact by reflexivity.
-        assert (E : firstn (length t) (skipn (length (da_name a) + 1) (da_name a ++ (c_eq :: t) ++ T)) = t).
+        assert (E : firstn (length t) (skipn (length (render_aname (da_name a)) + 1) (render_aname (da_name a) ++ (c_eq :: t) ++ T)) = t).
         { change ((c_eq :: t) ++ T) with ([c_eq] ++ t ++ T). rewrite app_assoc.
           rewrite skipn_app_exact by (rewrite app_length; cbn [length]; lia).
           apply firstn_app_exact. reflexivity. }
@@ -402,7 +485,7 @@ Proof.
       * rewrite firstn_app_exact by reflexivity. reflexivity.
     + rewrite araw_of_used. rewrite app_assoc. rewrite skipn_app_exact by reflexivity.
       f_equal. rewrite !app_length. lia.
-  - apply name_ok_stops_space. exact Hn.
+  - apply aname_stops_space. exact Hn.
   - apply attribute_at_render; assumption.
   - rewrite araw_of_used. rewrite app_assoc. rewrite (app_length (_ ++ _)). lia.
   - destruct (da_ws a); [contradiction|cbn [length]; lia].
